@@ -56,6 +56,8 @@ func c14Check() *HistCheck {
 			for _, op := range s.History {
 				if scn.IsAppOp(op) {
 					proj = append(proj, op)
+				} else if strings.HasPrefix(op, "LCW:") {
+					proj = append(proj, "TXC") // the application's part of LCW is the commit of its open transaction
 				}
 			}
 			if !s.AppUp {
@@ -146,7 +148,13 @@ func c14(args []string) int {
 			faultSeeds = append(faultSeeds, strings.Fields(base+" "+lf))
 		}
 	}
+	// litestream's lock-table insert meeting a busy database: a checkpoint while the application holds the write
+	// lock and commits 1.5 busy-timeouts later (operation LCW), so that every retry path around the insert runs
+	busy := cfgs["base"]
+	busy.BusyTimeoutMS = 30
 	layers := []Layer{
+		{Name: "seeded/busy/lock-insert-retry", Cfg: busy, Alphabet: strings.Fields("LCW:PASSIVE LCW:TRUNCATE LCW:RESTART S SW W1 TXB"), Depth: d(2, 3),
+			Seeds: [][]string{strings.Fields("W3 SW TXB"), strings.Fields("W3 SW W1 S TXB")}},
 		{Name: "seeded/base/local-faults", Cfg: cfgs["base"], Alphabet: aFault, Depth: d(2, 4), Seeds: faultSeeds},
 		{Name: "exact/min3/core", Cfg: cfgs["min3"], Alphabet: aCore, Depth: d(3, 5)},
 		{Name: "exact/base/tx", Cfg: cfgs["base"], Alphabet: aTx, Depth: d(3, 5)},
